@@ -392,22 +392,24 @@ Inductive nop :=
 
 Inductive nobs :=
 | OGet (v : Z) (e : errno)       (* accessor: value (bits for GDouble), errno *)
-| OSet (ret : Z)                 (* mutator: return value; the node is observed separately *)
+| OSet (ret : Z) (e : errno)     (* mutator: return value, errno (untouched); the node is observed separately *)
 | OUB.
 
 Definition of_res (r : res Z) : nobs := match r with Ret v e => OGet v e | UB => OUB end.
 
-Definition num_step (strtod : strtod_oracle) (o : jv) (op : nop) : nobs * jv :=
+(* [e0] is the errno the caller has before the call (the drivers preset it).  The mutators and
+   json_object_int_inc do not touch errno: they hand [e0] back. *)
+Definition num_step (strtod : strtod_oracle) (e0 : errno) (o : jv) (op : nop) : nobs * jv :=
   match op with
-  | GBool => (of_res (get_boolean E_NONE o), o)
-  | GInt => (of_res (get_int E_NONE o), o)
-  | GInt64 => (of_res (get_int64 E_NONE o), o)
-  | GUint64 => (of_res (get_uint64 E_NONE o), o)
-  | GDouble => (of_res (get_double strtod E_NONE o), o)
-  | SInt v => let '(r, o') := set_int o v in (OSet r, o')
-  | SInt64 v => let '(r, o') := set_int64 o v in (OSet r, o')
-  | SUint64 v => let '(r, o') := set_uint64 o v in (OSet r, o')
-  | SDouble b => let '(r, o') := set_double o b in (OSet r, o')
-  | SBool b => let '(r, o') := set_boolean o b in (OSet r, o')
-  | Inc v => match int_inc o v with IOk r o' => (OSet r, o') | IUB => (OUB, o) end
+  | GBool => (of_res (get_boolean e0 o), o)
+  | GInt => (of_res (get_int e0 o), o)
+  | GInt64 => (of_res (get_int64 e0 o), o)
+  | GUint64 => (of_res (get_uint64 e0 o), o)
+  | GDouble => (of_res (get_double strtod e0 o), o)
+  | SInt v => let '(r, o') := set_int o v in (OSet r e0, o')
+  | SInt64 v => let '(r, o') := set_int64 o v in (OSet r e0, o')
+  | SUint64 v => let '(r, o') := set_uint64 o v in (OSet r e0, o')
+  | SDouble b => let '(r, o') := set_double o b in (OSet r e0, o')
+  | SBool b => let '(r, o') := set_boolean o b in (OSet r e0, o')
+  | Inc v => match int_inc o v with IOk r o' => (OSet r e0, o') | IUB => (OUB, o) end
   end.
